@@ -156,40 +156,15 @@ pub fn run_batch(dir: &str, target: &str, cases: &[Case]) -> Vec<Outcome> {
         if outcomes[i].is_some() {
             continue;
         }
-        let mut child = match Command::new(&bin).arg(i.to_string()).stdout(std::process::Stdio::piped()).stderr(std::process::Stdio::piped()).spawn() {
-            Ok(c) => c,
+        let (status, stdout, stderr) = match watchdog_run(&bin, &[i.to_string()]) {
+            Ok(t) => t,
             Err(e) => {
-                outcomes[i] = Some(Outcome::Harness(format!("spawn: {e}")));
+                outcomes[i] = Some(Outcome::Harness(e));
                 continue;
             }
         };
-        // watchdog: 10 s per program
-        let start = std::time::Instant::now();
-        let status = loop {
-            match child.try_wait() {
-                Ok(Some(st)) => break Some(st),
-                Ok(None) => {
-                    if start.elapsed().as_secs() >= 10 {
-                        let _ = child.kill();
-                        let _ = child.wait();
-                        break None;
-                    }
-                    std::thread::sleep(std::time::Duration::from_millis(5));
-                }
-                Err(_) => break None,
-            }
-        };
-        let mut stdout = String::new();
-        let mut stderr = String::new();
-        use std::io::Read;
-        if let Some(mut o) = child.stdout.take() {
-            let _ = o.read_to_string(&mut stdout);
-        }
-        if let Some(mut e) = child.stderr.take() {
-            let _ = e.read_to_string(&mut stderr);
-        }
         outcomes[i] = Some(match status {
-            None => Outcome::Harness("timeout (program did not finish within 10 s)".into()),
+            None => Outcome::Harness("timeout (program did not finish within 10 s, nor within 90 s when run again)".into()),
             Some(st) => {
                 let panic = if stderr.contains("panicked at") {
                     // message is the line after the "thread 'main' panicked at file:line:col:" line
@@ -226,36 +201,12 @@ pub fn show(o: &Outcome) -> String {
 }
 
 fn run_binary(bin: &str, args: &[String]) -> Outcome {
-    let mut child = match Command::new(bin).args(args).stdout(std::process::Stdio::piped()).stderr(std::process::Stdio::piped()).spawn() {
-        Ok(c) => c,
-        Err(e) => return Outcome::Harness(format!("spawn: {e}")),
+    let (status, stdout, stderr) = match watchdog_run(bin, args) {
+        Ok(t) => t,
+        Err(e) => return Outcome::Harness(e),
     };
-    let start = std::time::Instant::now();
-    let status = loop {
-        match child.try_wait() {
-            Ok(Some(st)) => break Some(st),
-            Ok(None) => {
-                if start.elapsed().as_secs() >= 10 {
-                    let _ = child.kill();
-                    let _ = child.wait();
-                    break None;
-                }
-                std::thread::sleep(std::time::Duration::from_millis(5));
-            }
-            Err(_) => break None,
-        }
-    };
-    let mut stdout = String::new();
-    let mut stderr = String::new();
-    use std::io::Read;
-    if let Some(mut o) = child.stdout.take() {
-        let _ = o.read_to_string(&mut stdout);
-    }
-    if let Some(mut e) = child.stderr.take() {
-        let _ = e.read_to_string(&mut stderr);
-    }
     match status {
-        None => Outcome::Harness("timeout (program did not finish within 10 s)".into()),
+        None => Outcome::Harness("timeout (program did not finish within 10 s, nor within 90 s when run again)".into()),
         Some(st) => {
             let panic = if stderr.contains("panicked at") {
                 let mut it = stderr.lines();
@@ -301,4 +252,59 @@ pub fn build_project(main: &str, outdir: &str, target: &str) -> Outcome {
     };
     let _ = std::fs::remove_dir_all(outdir);
     out
+}
+
+/// Run a compiled program under a watchdog.  The pipes are drained by reader threads while the program runs
+/// (a program printing more than the pipe buffer must not look like a hang).  A program that misses the
+/// 10 s limit is run once more with 90 s before it is reported: on a loaded machine (other builds running)
+/// a trivial program can miss the short limit, and a timeout is an alarm.
+fn watchdog_run(bin: &str, args: &[String]) -> Result<(Option<std::process::ExitStatus>, String, String), String> {
+    let mut last = (None, String::new(), String::new());
+    for limit in [10u64, 90] {
+        let mut child = Command::new(bin)
+            .args(args)
+            .stdout(std::process::Stdio::piped())
+            .stderr(std::process::Stdio::piped())
+            .spawn()
+            .map_err(|e| format!("spawn: {e}"))?;
+        use std::io::Read;
+        let mut so = child.stdout.take();
+        let mut se = child.stderr.take();
+        let t_out = std::thread::spawn(move || {
+            let mut s = Vec::new();
+            if let Some(o) = so.as_mut() {
+                let _ = o.read_to_end(&mut s);
+            }
+            String::from_utf8_lossy(&s).into_owned()
+        });
+        let t_err = std::thread::spawn(move || {
+            let mut s = Vec::new();
+            if let Some(e) = se.as_mut() {
+                let _ = e.read_to_end(&mut s);
+            }
+            String::from_utf8_lossy(&s).into_owned()
+        });
+        let start = std::time::Instant::now();
+        let status = loop {
+            match child.try_wait() {
+                Ok(Some(st)) => break Some(st),
+                Ok(None) => {
+                    if start.elapsed().as_secs() >= limit {
+                        let _ = child.kill();
+                        let _ = child.wait();
+                        break None;
+                    }
+                    std::thread::sleep(std::time::Duration::from_millis(5));
+                }
+                Err(_) => break None,
+            }
+        };
+        let stdout = t_out.join().unwrap_or_default();
+        let stderr = t_err.join().unwrap_or_default();
+        last = (status, stdout, stderr);
+        if last.0.is_some() {
+            break;
+        }
+    }
+    Ok(last)
 }
